@@ -72,6 +72,19 @@ def find_arrays(e):
     return out
 
 
+def find_paths(e):
+    out = []
+    if isinstance(e, dict):
+        if "path" in e and isinstance(e["path"], str):
+            out.append(e["path"])
+        for v in e.values():
+            out.extend(find_paths(v))
+    elif isinstance(e, list):
+        for x in e:
+            out.extend(find_paths(x))
+    return out
+
+
 def be_int(b):
     return int.from_bytes(bytes(b), "big")
 
@@ -107,9 +120,16 @@ def harvest_prims(prog, R):
         R.viol("R20.PRIMS", "R20.PRIMS|anchor-lost|prims", PRIMS_FN, "anchor lost: fn prims not found")
         return []
     arrays = [a for a in find_arrays(h) if a and isinstance(a[0], dict) and "tup" in a[0]]
+    if not arrays:
+        # table-driven rewrite: prims() maps over a const table item; follow the reference
+        for ref in sorted(set(find_paths(h))):
+            if ref in prog.hir and ref != PRIMS_FN:
+                arrays += [a for a in find_arrays(prog.hir[ref]) if a and isinstance(a[0], dict) and "tup" in a[0]]
+                if arrays:
+                    R.info("prims() is built from const table %s" % ref)
     if len(arrays) != 1:
         R.viol("R20.PRIMS", "R20.PRIMS|anchor-lost|shape", PRIMS_FN,
-               "anchor lost: prims() no longer contains one array of (name, value) tuples")
+               "anchor lost: prims() neither contains nor references exactly one array of (name, value) tuples")
         return []
     rows = []
     for i, ent in enumerate(arrays[0]):
@@ -628,6 +648,84 @@ def run(tier="quick", replay=None):
                 "%s matches operator name %r against opcode %d, but the keyword table gives %r opcode %s" % (
                     f.path, nm, opc, nm, opcode_of.get(nm)), fn=f.path)
     R.floor("R20.PAIR", "match_atom_to_prim pairs", npair, 5)
+    # ---------------- numeric heads vs operator names in the stepping evaluator ----------
+    th = prog.fn("compiler::clvm::translate_head")
+    if th is None:
+        R.viol("R20.ALIAS", "R20.ALIAS|anchor-lost|translate_head", "compiler::clvm", "anchor lost: compiler::clvm::translate_head")
+    else:
+        fl = Flow(th)
+        numeric_by_name = []
+        name_lookups = 0
+        for bb, t in th.calls():
+            c = callee_of(t) or ""
+            if c.endswith("HashMap::<K, V, S>::get") or c.endswith("HashMap::<K, V, S, A>::get"):
+                name_lookups += 1
+                kl = op_local(t["args"][1]) if len(t["args"]) > 1 else None
+                if kl is not None and fl.derives_from_call(kl, lambda c: c.endswith("u8_from_number")):
+                    numeric_by_name.append(th.loc(bb))
+        R.floor("R20.ALIAS", "name lookups in translate_head", name_lookups, 1)
+        collisions = [(a, b) for a in kw for b in kw if a is not b and a["bytes"] == b["name"].encode("latin1")]
+        R.counts["opcode bytes that spell another operator's name"] = [
+            "%s (0x%s) spells %r" % (a["name"], a["bytes"].hex(), b["name"]) for a, b in collisions]
+        if numeric_by_name:
+            for a, b in collisions:
+                R.viol("R20.ALIAS", "R20.ALIAS|%s-read-as-%s" % (a["name"], b["name"]), numeric_by_name[0],
+                       "the stepping evaluator resolves a NUMBER in head position through the name-keyed primitive map "
+                       "(u8_from_number -> prim_map.get): opcode %d (%r) has the byte 0x%s = the name %r, so %r is executed as "
+                       "%r (compile-time constant folding, macros and cldb compute wrong results)" % (
+                           be_int(a["bytes"]), a["name"], a["bytes"].hex(), b["name"], a["name"], b["name"]), fn=th.path)
+            if not collisions:
+                R.ob("R20.ALIAS", "R20.ALIAS|no-collisions", numeric_by_name[0],
+                     "auto: numeric heads are looked up by name, but no opcode's bytes spell another operator's name")
+        else:
+            R.ob("R20.ALIAS", "R20.ALIAS|numeric-heads-are-opcodes", "%s:%s" % (th.file, th.line),
+                 "auto: translate_head resolves names for atoms only; a number in head position is never looked up in the "
+                 "name table (%d opcode/name byte collisions exist in the keyword table and are harmless)" % len(collisions), fn=th.path)
+
+    # ---------------- opcode byte strings are never truncated ------------------------
+    fams = set()
+    for f in prog.fns.values():
+        touched = False
+        for bb, t in f.calls():
+            c = callee_of(t) or ""
+            if c in ("classic::clvm::keyword_to_atom", "classic::clvm::keyword_from_atom") or "classic::clvm::KEYWORD_" in c:
+                touched = True
+        for pr in f.d.get("promoted", []):
+            if any("KW_PAIRS" in x for x in pr):
+                touched = True
+        if touched:
+            fams.add(f.root)
+    R.floor("R20.TRUNC", "function families using the keyword tables", len(fams), 5)
+    ntr = 0
+    for r in sorted(fams):
+        for f in prog.family(r):
+            for bb, blk in enumerate(f.blocks):
+                if blk.get("cleanup"):
+                    continue
+                t = blk["t"]
+                hit = None
+                if t["k"] == "call":
+                    d = t.get("callee") or ""
+                    g = t.get("gargs", [])
+                    c = callee_of(t) or ""
+                    if (d.endswith("ops::Index::index") and g and g[0] in ("std::vec::Vec<u8>", "[u8]")
+                            and len(g) > 1 and g[1] == "usize"):
+                        hit = "indexes a byte string"
+                    elif c.rsplit("::", 1)[-1] in ("first", "last", "get", "split_first", "split_last") and \
+                            ("[T]" in c or "slice" in c) and t.get("arg_tys") and "u8" in t["arg_tys"][0]:
+                        hit = "takes one byte (%s) of a byte string" % c.rsplit("::", 1)[-1]
+                elif t["k"] == "assert" and t["msg"] == "BoundsCheck":
+                    lk = op_local(t["len"])
+                    hit = None
+                if hit:
+                    ntr += 1
+                    R.viol("R20.TRUNC", "R20.TRUNC|%s" % f.path, f.loc(bb),
+                           "%s (a function that works with the keyword tables) %s: opcode byte strings are up to 4 bytes "
+                           "long (secp256k1_verify = 13d61f00), taking single bytes of them makes a name denote a different "
+                           "opcode in this component" % (f.path, hit), fn=f.path)
+    R.ob("R20.TRUNC", "R20.TRUNC|scan", "keyword-table users", "auto: %d function families use the keyword tables; none takes "
+         "single bytes of a byte string (%d hits)" % (len(fams), ntr))
+
     R.extra["tables"] = {
         "KW": [[r["bytes"].hex(), r["name"], r["version"]] for r in kw],
         "ORIG": {str(k): v for k, v in sorted(orig_small.items())},
